@@ -86,6 +86,13 @@ pub enum Interfere {
     RemoveTmp,
     /// the content area is removed
     RemoveContentArea,
+    /// keyed writers: the writer's own key is removed fully (`RemoveOpts::remove_fully(true)`)
+    /// by the same process between the last chunk and the commit. Deterministic and judged:
+    /// the result is `Out::Pair(result of the removal, result of the commit)`, and the commit
+    /// is the most recent event for the key
+    RemoveKeyFully,
+    /// the same with a plain `remove` (a removal record)
+    RemoveKey,
 }
 
 /// Which public entry point performs the write.
